@@ -9,7 +9,7 @@ import (
 )
 
 func init() {
-	register(&PropCheck{ID: "C13", AnchorsInlined: true, Pkgs: []string{"./service", "./netio", "./stats", "./httpproxy", "./socks5"}, Run: runC13})
+	register(&PropCheck{ID: "C13", AnchorsInlined: true, Pkgs: []string{"./service", "./netio", "./stats", "./httpproxy", "./socks5", "./ss2022"}, Run: runC13})
 }
 
 func runC13(p *Prog, r *Report) {
@@ -27,6 +27,11 @@ func runC13(p *Prog, r *Report) {
 	nw := wrapperInnerReads(p, r, "C13-R6")
 	r.Count("wrapper_inner_reads_C13", nw)
 	r.Floor("C13-R6", 1)
+	// R7: "copies both directions until each side finishes" with an SS2022 tunnel on one side goes
+	// through the tunnel's ReadFrom / WriteTo loops (io.Copy prefers them): the same accounting rule
+	// as C01-R4, registered here because bytes returned together with io.EOF ("EOF with data" in the
+	// property's quantifier) are lost by the relay if such a loop acts on the error first
+	c01R4as(p, r, "C13-R7")
 }
 
 func handleConnCtx(p *Prog) *FuncCtx { return p.Func("service", "TCPRelay", "handleConn") }
